@@ -4,6 +4,7 @@ package reactor
 
 import (
 	"fmt"
+	"sync"
 	"sync/atomic"
 
 	"github.com/internetarchive/Zeno/internal/verifrt"
@@ -236,13 +237,16 @@ func VerifH_C12_concurrent_finish() {
 	r := globalReactor
 	keeper, s := c12Seed(0), c12Seed(1)
 	verifrt.Assert(ReceiveInsert(keeper) == nil && ReceiveInsert(s) == nil, "C12 insert with a free token is accepted")
-	verifrt.Quiesce()
+	<-out
+	<-out // both seeds have been delivered: the reactor is idle
 	var e1, e2 error
-	var d1, d2 atomic.Bool
-	verifrt.Go(func() { e1 = MarkAsFinished(s); d1.Store(true) })
-	verifrt.Go(func() { e2 = MarkAsFinished(s); d2.Store(true) })
-	verifrt.Quiesce()
-	verifrt.Assert(d1.Load() && d2.Load(), "C12 finishing never blocks") // (a second finish that waits for a token that is not there would)
+	var wg sync.WaitGroup
+	start := make(chan struct{})
+	wg.Add(2)
+	verifrt.Go(func() { defer wg.Done(); <-start; e1 = MarkAsFinished(s) })
+	verifrt.Go(func() { defer wg.Done(); <-start; e2 = MarkAsFinished(s) })
+	close(start)
+	wg.Wait() // (a finish that waits for a token that is not there shows as a deadlock)
 	ok := 0
 	if e1 == nil {
 		ok++
@@ -253,4 +257,5 @@ func VerifH_C12_concurrent_finish() {
 	verifrt.Cover("two-finishes")
 	verifrt.Assert(ok == 1, "C12 repeated finish is rejected")
 	verifrt.Assert(len(r.tokenPool) == 1 && c12Tracked() == 1 && c12IsTracked(keeper.GetID()), "C12 finish gives back exactly one token")
+	Stop() // (leaves the package clean for the next iteration of the native stress replay)
 }
